@@ -24,7 +24,7 @@ import RosuModel.Props.C19
 import RosuModel.Props.C20Ieee
 import RosuModel.Lemmas.RtTimingRt
 import RosuModel.Lemmas.RtTimelineRun
-import RosuModel.Lemmas.FloatModelOrder
+import RosuModel.Lemmas.FloatModelCompare
 namespace Rosu.IeeeFalse
 open Rosu
 
